@@ -99,6 +99,14 @@ def _one_chain(t):
         a["chain"] = "A"
 
 
+def _sodium(t):
+    """Residue B 11 becomes a sodium ion: component, atom and element all spelled NA."""
+    for k in (9, 10, 11):
+        t[k]["resname"] = "NA"
+        t[k]["record"] = "HETATM"
+    t[9]["name"], t[9]["element"] = "NA", "NA"
+
+
 def _serial_offset(off):
     def f(t):
         for a in t:
@@ -146,6 +154,7 @@ def deviations():
     d.append(_one_chain)
     d.append(_name_el(1, "O3*", "O"))
     d.append(_name_el(8, "C5M", "C"))
+    d.append(_sodium)
     return d
 
 
